@@ -125,7 +125,7 @@ def match_finding(v, findings):
 
 
 def jsonable(x, depth=0):
-    if depth > 6:
+    if depth > 14:
         return repr(x)
     if isinstance(x, (str, int, float, bool)) or x is None:
         return x
